@@ -296,7 +296,7 @@ func oracleTags(oracle string) []string {
 	case "gauge", "orphaned-join", "empty-session-discoverable", "duplicate-session-id", "frame-worker":
 		return []string{"C07", "C03"}
 	case "id", "id-source":
-		return []string{"C10", "C05", "C12", "C04"}
+		return []string{"C10", "C05", "C12", "C04", "C09"} // under concurrency a reissued id is corrupted shared state
 	case "race":
 		return []string{"C09"}
 	case "panic":
